@@ -170,8 +170,9 @@ class PropertyRun:
         ev = {'property_id': self.pid, 'tier': self.tier, 'seed': int(self.seed), 'level': level, 'coverage': cov,
               'assumptions': self.assumptions, 'wall_s': round(wall, 2), 'violations': len(real)}
         os.makedirs(EVID, exist_ok=True)
-        with open(os.path.join(EVID, self.pid + '.json'), 'w') as f:
-            json.dump(ev, f, indent=1, default=str)
+        if not os.environ.get('VERIF_NO_EVIDENCE'):          # (self-tests on scratch copies must not overwrite the evidence of the real tree)
+            with open(os.path.join(EVID, self.pid + '.json'), 'w') as f:
+                json.dump(ev, f, indent=1, default=str)
         try:
             import jsonschema
             schema = load_json('/root/.vp/EVIDENCE.schema.json', None)
